@@ -134,109 +134,121 @@ def run(tier, seed):
         trace = []
         why = None
         for op in hc["ops"]:
-            if op[0] == "w":
-                if not s["fields"]:
-                    rec = {}
-                    kind = "good"
-                else:
-                    kind = op[1]
-                    rec = bad_record(g, s) if kind == "bad" else good_record(g, s, big=(kind == "big"))
-                trace.append(["write", kind, to_wire(rec) if kind != "bad" else repr(rec)[:80]])
-                try:
-                    w.write(rec)
-                    submitted.append(rec)
-                    mops.append({"w": to_wire(rec)})
-                    if kind == "bad":
-                        trace[-1].append("accepted")
-                except Exception as e:  # noqa
-                    trace[-1].append("raised " + exc_class(e))
-                    if kind != "bad":
-                        why = "write of a conforming record raised %r" % (e,)
+            try:
+                if op[0] == "w":
+                    if not s["fields"]:
+                        rec = {}
+                        kind = "good"
+                    else:
+                        kind = op[1]
+                        rec = bad_record(g, s) if kind == "bad" else good_record(g, s, big=(kind == "big"))
+                    trace.append(["write", kind, to_wire(rec) if kind != "bad" else repr(rec)[:80]])
+                    try:
+                        w.write(rec)
+                        submitted.append(rec)
+                        mops.append({"w": to_wire(rec)})
+                        if kind == "bad":
+                            trace[-1].append("accepted")
+                    except Exception as e:  # noqa
+                        trace[-1].append("raised " + exc_class(e))
+                        if kind != "bad":
+                            why = "write of a conforming record raised %r" % (e,)
+                            break
+                elif op[0] == "f":
+                    trace.append(["flush"])
+                    w.flush()
+                    mops.append({"f": 1})
+                    data = fo.getvalue()
+                    try:
+                        parsed = spec_parse(data)
+                    except ParseError as e:
+                        why = "after flush the stream is not a layout-valid container: %s" % e
                         break
-            elif op[0] == "f":
-                trace.append(["flush"])
-                w.flush()
-                mops.append({"f": 1})
-                data = fo.getvalue()
-                try:
-                    parsed = spec_parse(data)
-                except ParseError as e:
-                    why = "after flush the stream is not a layout-valid container: %s" % e
-                    break
-                if header0 is None:
-                    header0 = data[:parsed["header_len"]]
-                elif data[:parsed["header_len"]] != header0 or data[:len(header0)] != header0:
-                    why = "the header changed after creation"
-                    break
-                try:
-                    got = list(fastavro.reader(io.BytesIO(data)))
-                except Exception as e:  # noqa
-                    why = "after flush the stream does not read back: %r" % (e,)
-                    break
-                fo2 = io.BytesIO()
-                exp = []
-                for rec in submitted:
-                    b = io.BytesIO()
-                    fastavro.schemaless_writer(b, ps, rec)
-                    exp.append(fastavro.schemaless_reader(io.BytesIO(b.getvalue()), ps))
-                if [canon(to_wire(x)) for x in got] != [canon(to_wire(x)) for x in exp]:
-                    why = "after flush the stream reads back as %d records, %d were successfully submitted (or they differ)" % (len(got), len(exp))
-                    hc["got"] = [to_wire(x) for x in got][:6]
-                    break
-            elif op[0] == "b":
-                # copy whole blocks from a donor file of another codec; a caller may look at a block before copying it
-                # (iterate it, peek at its first record) and may copy one block into the output twice
-                dcodec = r.choice(list(CODECS))
-                look = r.choice(["fresh", "fresh", "iterated", "peeked", "twice"])
-                drecs = [good_record(g, s) if s["fields"] else {} for _ in range(r.randint(1, 4))]
-                dfo = io.BytesIO()
-                fastavro.writer(dfo, ps, drecs, codec=dcodec, sync_interval=(10 ** 6 if look == "twice" else r.choice([1, 1000])))
-                dfo.seek(0)
-                trace.append(["write_block", dcodec, len(drecs), look])
-                for blk in fastavro.block_reader(dfo):
-                    payload = blk.bytes_.getvalue()
-                    n = blk.num_records
-                    if look == "iterated":
-                        list(blk)
-                    elif look == "peeked":
-                        next(iter(blk), None)
-                    for _ in range(2 if look == "twice" else 1):
-                        w.write_block(blk)
-                        mops.append({"b": [n, payload.hex()]})
-                submitted.extend(drecs)
-                if look == "twice":
+                    if header0 is None:
+                        header0 = data[:parsed["header_len"]]
+                    elif data[:parsed["header_len"]] != header0 or data[:len(header0)] != header0:
+                        why = "the header changed after creation"
+                        break
+                    try:
+                        got = list(fastavro.reader(io.BytesIO(data)))
+                    except Exception as e:  # noqa
+                        why = "after flush the stream does not read back: %r" % (e,)
+                        break
+                    fo2 = io.BytesIO()
+                    exp = []
+                    for rec in submitted:
+                        b = io.BytesIO()
+                        fastavro.schemaless_writer(b, ps, rec)
+                        exp.append(fastavro.schemaless_reader(io.BytesIO(b.getvalue()), ps))
+                    if [canon(to_wire(x)) for x in got] != [canon(to_wire(x)) for x in exp]:
+                        why = "after flush the stream reads back as %d records, %d were successfully submitted (or they differ)" % (len(got), len(exp))
+                        hc["got"] = [to_wire(x) for x in got][:6]
+                        break
+                elif op[0] == "b":
+                    # copy whole blocks from a donor file of another codec; a caller may look at a block before copying it
+                    # (iterate it, peek at its first record) and may copy one block into the output twice
+                    dcodec = r.choice(list(CODECS))
+                    look = r.choice(["fresh", "fresh", "iterated", "peeked", "twice"])
+                    drecs = [good_record(g, s) if s["fields"] else {} for _ in range(r.randint(1, 4))]
+                    dfo = io.BytesIO()
+                    fastavro.writer(dfo, ps, drecs, codec=dcodec, sync_interval=(10 ** 6 if look == "twice" else r.choice([1, 1000])))
+                    dfo.seek(0)
+                    trace.append(["write_block", dcodec, len(drecs), look])
+                    try:
+                        for blk in fastavro.block_reader(dfo):
+                            payload = blk.bytes_.getvalue()
+                            n = blk.num_records
+                            if look == "iterated":
+                                list(blk)
+                            elif look == "peeked":
+                                next(iter(blk), None)
+                            for _ in range(2 if look == "twice" else 1):
+                                w.write_block(blk)
+                                mops.append({"b": [n, payload.hex()]})
+                    except Exception as e:  # noqa
+                        why = "copying a block (%s) from a donor file raised %r" % (look, e)
+                        break
                     submitted.extend(drecs)
-            elif op[0] == "reopen":
-                trace.append(["reopen"])
-                w.flush()
-                mops.append({"f": 1})
-                other_schema = r.choice([None, "string", {"type": "record", "name": "Other", "fields": [{"name": "q", "type": "int"}]}, s])
-                kw2 = dict(codec=r.choice(list(CODECS)), sync_interval=hc["interval"], validator=hc["validator"],
-                           sync_marker=r.choice([b"", b"\x01" * 16]))
-                if r.random() < 0.5:
-                    kw2["metadata"] = {"other": "meta"}
-                # wherever the stream happens to be positioned (anywhere but 0): a caller may have read the file first
-                where = r.choice(["end", "end", "after-reader", "after-some-records", "seek"])
-                trace[-1].append(where)
-                if where == "after-reader":
-                    fo.seek(0)
-                    fastavro.reader(fo)
-                    if fo.tell() == 0:
-                        fo.seek(0, 2)
-                elif where == "after-some-records":
-                    fo.seek(0)
-                    it = fastavro.reader(fo)
-                    for _ in range(r.randint(0, 2)):
-                        next(it, None)
-                    if fo.tell() == 0:
-                        fo.seek(0, 2)
-                elif where == "seek":
-                    fo.seek(r.randint(1, max(1, len(fo.getvalue()))))
-                try:
-                    w = Writer(fo, other_schema, **kw2)
-                except Exception as e:  # noqa
-                    why = "reopening the stream for append raised %r" % (e,)
-                    break
+                    if look == "twice":
+                        submitted.extend(drecs)
+                elif op[0] == "reopen":
+                    trace.append(["reopen"])
+                    w.flush()
+                    mops.append({"f": 1})
+                    other_schema = r.choice([None, "string", {"type": "record", "name": "Other", "fields": [{"name": "q", "type": "int"}]}, s])
+                    kw2 = dict(codec=r.choice(list(CODECS)), sync_interval=hc["interval"], validator=hc["validator"],
+                               sync_marker=r.choice([b"", b"\x01" * 16]))
+                    if r.random() < 0.5:
+                        kw2["metadata"] = {"other": "meta"}
+                    # wherever the stream happens to be positioned (anywhere but 0): a caller may have read the file first
+                    where = r.choice(["end", "end", "after-reader", "after-some-records", "seek"])
+                    trace[-1].append(where)
+                    try:
+                        if where == "after-reader":
+                            fo.seek(0)
+                            fastavro.reader(fo)
+                            if fo.tell() == 0:
+                                fo.seek(0, 2)
+                        elif where == "after-some-records":
+                            fo.seek(0)
+                            it = fastavro.reader(fo)
+                            for _ in range(r.randint(0, 2)):
+                                next(it, None)
+                            if fo.tell() == 0:
+                                fo.seek(0, 2)
+                        elif where == "seek":
+                            fo.seek(r.randint(1, max(1, len(fo.getvalue()))))
+                    except Exception as e:  # noqa
+                        why = "the stream written so far cannot be read before re-opening it: %r" % (e,)
+                        break
+                    try:
+                        w = Writer(fo, other_schema, **kw2)
+                    except Exception as e:  # noqa
+                        why = "reopening the stream for append raised %r" % (e,)
+                        break
+            except Exception as e:  # noqa  (an operation of the history that is expected to succeed raised)
+                why = "operation %s of the history raised %r" % (op[0], e)
+                break
         hc["why"], hc["trace"] = why, trace
         hc["data"] = fo.getvalue()
         hc["mops"] = mops
